@@ -7,17 +7,19 @@
 EXTENDS CompileExec, Json
 
 Trace == ndJsonDeserialize("trace.ndjson")
-VARIABLE l
-tvars == <<vars, l>>
+VARIABLES l,      \* next line of the trace
+          rw      \* the cycle reports that existed when the caller woke up from its last wait
+tvars == <<vars, l, rw>>
 
 Ev == Trace[l]
-IsEvent(e) == l <= Len(Trace) /\ Trace[l].ev = e /\ l' = l + 1
+IsEvent0(e) == l <= Len(Trace) /\ Trace[l].ev = e /\ l' = l + 1
+IsEvent(e) == IsEvent0(e) /\ rw' = rw
 CfgOf(e) == [imports |-> e.imports, req |-> e.req, plan |-> e.plan, par |-> e.par, ovr |-> e.ovr]
 Top(f) == stack[f][Len(stack[f])]
 
 TraceInit ==
   /\ Trace[1].ev = "Config"
-  /\ l = 2
+  /\ l = 2 /\ rw = {}
   /\ LET v == InitVal(CfgOf(Trace[1])) IN
     /\ imports = v.imports /\ req = v.req /\ plan = v.plan /\ par = v.par /\ ovr = v.ovr
     /\ created = v.created /\ pc = v.pc /\ idx = v.idx /\ blocked = v.blocked /\ stack = v.stack
@@ -27,7 +29,7 @@ TraceInit ==
 
 (* next run of the batch *)
 TConfig ==
-  /\ IsEvent("Config") /\ l > 1 /\ Trace[l - 1].ev = "End"
+  /\ IsEvent0("Config") /\ rw' = {} /\ l > 1 /\ Trace[l - 1].ev = "End"
   /\ LET v == InitVal(CfgOf(Ev)) IN
     /\ imports' = v.imports /\ req' = v.req /\ plan' = v.plan /\ par' = v.par /\ ovr' = v.ovr
     /\ created' = v.created /\ pc' = v.pc /\ idx' = v.idx /\ blocked' = v.blocked /\ stack' = v.stack
@@ -137,20 +139,20 @@ TDone ==
      \/ out[f] = "pending" /\ cls = "panic" /\ PanicFail(f)
 
 TMainWoke ==
-  /\ IsEvent("MainWoke")
+  /\ IsEvent0("MainWoke") /\ rw' = reports
   /\ mpc = "wait" /\ midx = Ev.i + 1
   /\ \/ Ev.how = "ready" /\ MainWaitReady
      \/ Ev.how = "ctx" /\ MainWaitCtx
 
-(* The Cycle event is logged when handleImportCycle is entered, i.e. just BEFORE the error reaches the
-   handler (the handler's own mutex is in package reporter and carries no hook).  A Return that reads
-   h.Error() inside that window does not see the report yet: while a task that logged Cycle has not yet
-   logged its final release, the caller may still return the first task failure instead.          *)
-CycleInFlight == \E f \in Files : out[f] = "cycle" /\ pc[f] = "fin"
+(* The caller reads h.Error() somewhere between its last wake-up and the moment the Return event is
+   logged (the handler's mutex is in package reporter and carries no hook), and a task's Cycle event is
+   logged just before the handler is updated.  So the value returned is the model's result computed
+   either with the reports known now, or - if no cycle had been reported when the caller woke up for
+   the last time - the first task failure.                                                          *)
 TReturn == /\ IsEvent("Return")
            /\ MainReturn
            /\ \/ mres' = Ev.err
-              \/ CycleInFlight /\ mres' = "cycle" /\ Ev.err = FirstFailure
+              \/ rw = {} /\ mres' = "cycle" /\ Ev.err = FirstFailure
 
 TCancel == IsEvent("Cancel") /\ ExternalCancel
 
